@@ -939,3 +939,26 @@ Definition np_transpose (x : array) (perm : list nat) : array :=
 (* einsum 'term->output' without summed index: out[p] = x[e(term)] where e(output[k]) = p[k] *)
 Definition einsum1_nosum (term output : list nat) (x : array) : array :=
   fun p => x (map (fun s => match find_pos s output with Some k => nth k p 0 | None => 0 end) term).
+
+(* ================================================================== *)
+(* Part 6: vocabulary of the value-invariance theorem (uses the shared Net.v / Einsum.v) *)
+From Ctg Require Import Net Einsum.
+
+(* a network with every label renamed by f: inputs, output and the keys of the size dictionary *)
+Definition relabel_sizes (f : nat -> nat) (sd : sizes) : sizes := map (fun kv => (f (fst kv), snd kv)) sd.
+Definition relabel_net (f : nat -> nat) (n : net) : net :=
+  mkNet (map (map f) (inputs n)) (map f (output n)) (relabel_sizes f (szd n)).
+Definition net_labels (n : net) : list nat := concat (inputs n) ++ output n ++ map fst (szd n).
+Definition inj_on (f : nat -> nat) (D : list nat) : Prop :=
+  forall x y, In x D -> In y D -> f x = f y -> x = y.
+Definition agree_on (D : list nat) (e1 e2 : env) : Prop := forall j, In j D -> e1 j = e2 j.
+
+(* the contraction canonicalize_inputs was asked to canonicalise *)
+Definition original_net (ins0 : list (list nat)) (out0 : option (list nat))
+           (shapes : option (list shape)) (sd : option sizes) : net :=
+  mkNet ins0
+        (match out0 with Some o => o | None => find_output_from_inputs ins0 end)
+        (match sd with
+         | Some sdv => sdv
+         | None => match shapes with Some shs => sizes_from_shapes ins0 shs | None => [] end
+         end).
